@@ -221,6 +221,66 @@ Proof.
       * apply H6 in Hk. lia.
 Qed.
 
+(** the same, recording that growth never reduces the room on either side of the old block *)
+Lemma grow_inv_mono : forall pol t s base a b ok t',
+  PolicyOK pol -> Inv t s base ->
+  t_make_accessible pol ok t a b = TOk t' ->
+  exists base', Inv t' {| s_cells := s_cells s; s_pos := s_pos s; s_acc := (s_pos s + a, s_pos s + b) :: s_acc s |} base'
+    /\ (0 <= s_pos s + a + base' /\ s_pos s + b + base' <= t_size t')
+    /\ base <= base' /\ t_size t - base <= t_size t' - base'.
+Proof.
+  intros pol t s base a b ok t' Hpol HI Hm.
+  unfold t_make_accessible in Hm. rewrite (signed_off t s base HI) in Hm.
+  set (sp := s_pos s + base + a) in *. set (ep := s_pos s + base + b) in *.
+  pose proof (inv_size _ _ _ HI) as Hs. pose proof (inv_base _ _ _ HI) as Hbase.
+  assert (Hnb : 0 <= needed_below sp) by (unfold needed_below; destruct (sp <? 0) eqn:E; [apply Z.ltb_lt in E|]; lia).
+  assert (Hna : 0 <= needed_above ep (t_size t)) by (unfold needed_above; destruct (t_size t <? ep) eqn:E; [apply Z.ltb_lt in E|]; lia).
+  destruct ((needed_below sp =? 0) && (needed_above ep (t_size t) =? 0)) eqn:E.
+  - (* no growth *)
+    injection Hm as <-. apply andb_true_iff in E. destruct E as [E1 E2]. apply Z.eqb_eq in E1, E2.
+    assert (0 <= sp) by (unfold needed_below in E1; destruct (sp <? 0) eqn:X; [apply Z.ltb_lt in X; lia|apply Z.ltb_ge in X; lia]).
+    assert (ep <= t_size t) by (unfold needed_above in E2; destruct (t_size t <? ep) eqn:X; [apply Z.ltb_lt in X; lia|apply Z.ltb_ge in X; lia]).
+    exists base. split; [|split; [unfold sp, ep in *; lia|lia]].
+    destruct HI as [H1 H2 H3 H4 H5 H6]. constructor; simpl; try assumption.
+    intros k Hk. apply orb_true_iff in Hk. destruct Hk as [Hk|Hk]; [|apply H6; exact Hk].
+    apply andb_true_iff in Hk. destruct Hk as [K1 K2]. apply Z.leb_le in K1. apply Z.ltb_lt in K2.
+    unfold sp, ep in *. lia.
+  - (* growth *)
+    assert (Hpos : 0 < needed_below sp + needed_above ep (t_size t)).
+    { apply andb_false_iff in E. destruct E as [E|E]; apply Z.eqb_neq in E; lia. }
+    pose proof (Hpol (t_size t) (needed_below sp) (needed_above ep (t_size t)) ltac:(lia) Hnb Hna Hpos) as HP.
+    destruct (pol (t_size t) (needed_below sp) (needed_above ep (t_size t))) as [ns ab].
+    destruct HP as [P1 [P2 P3]].
+    destruct (SIZE_LIMIT <=? ns) eqn:L; [discriminate|apply Z.leb_gt in L].
+    destruct ok; [|discriminate]. simpl in Hm. injection Hm as <-.
+    exists (base + ab).
+    assert (Hsp : 0 <= sp + ab) by (unfold needed_below in P1; destruct (sp <? 0) eqn:X; [apply Z.ltb_lt in X|apply Z.ltb_ge in X]; lia).
+    assert (Hep : ep + ab <= ns) by (unfold needed_above in P2; destruct (t_size t <? ep) eqn:X; [apply Z.ltb_lt in X|apply Z.ltb_ge in X]; lia).
+    split; [|split; [unfold sp, ep in *; simpl; lia|simpl; lia]].
+    destruct HI as [H1 H2 H3 H4 H5 H6]. constructor; simpl.
+    + lia.
+    + lia.
+    + rewrite H3. rewrite wrap_wrap_add. f_equal. lia.
+    + assumption.
+    + intros k. rewrite H5.
+      replace (k + (base + ab) - ab) with (k + base) by lia.
+      destruct ((0 <=? k + base) && (k + base <? t_size t)) eqn:X.
+      * apply andb_true_iff in X. destruct X as [X1 X2]. apply Z.leb_le in X1. apply Z.ltb_lt in X2.
+        assert (Y1 : (0 <=? k + (base + ab)) = true) by (apply Z.leb_le; lia).
+        assert (Y2 : (k + (base + ab) <? ns) = true) by (apply Z.ltb_lt; lia).
+        assert (Y3 : (ab <=? k + (base + ab)) = true) by (apply Z.leb_le; lia).
+        assert (Y4 : (k + (base + ab) <? ab + t_size t) = true) by (apply Z.ltb_lt; lia).
+        rewrite Y1, Y2, Y3, Y4. reflexivity.
+      * destruct ((0 <=? k + (base + ab)) && (k + (base + ab) <? ns)); [|reflexivity].
+        destruct ((ab <=? k + (base + ab)) && (k + (base + ab) <? ab + t_size t)) eqn:Y; [|reflexivity].
+        exfalso. apply andb_true_iff in Y. destruct Y as [Y1 Y2]. apply Z.leb_le in Y1. apply Z.ltb_lt in Y2.
+        apply andb_false_iff in X. destruct X as [X|X]; [apply Z.leb_gt in X|apply Z.ltb_ge in X]; lia.
+    + intros k Hk. apply orb_true_iff in Hk. destruct Hk as [Hk|Hk].
+      * apply andb_true_iff in Hk. destruct Hk as [K1 K2]. apply Z.leb_le in K1. apply Z.ltb_lt in K2.
+        unfold sp, ep in *. lia.
+      * apply H6 in Hk. lia.
+Qed.
+
 Lemma make_accessible_no_oob : forall pol ok t a b i, t_make_accessible pol ok t a b <> RawOob i.
 Proof.
   intros pol ok t a b i. unfold t_make_accessible.
